@@ -10,11 +10,25 @@
                                     program built from its rows, rotation of ticket keys at any time included
                                     (true since /repo 43260b6; before, this statement was refuted)
      3. conn_close_write_interlock  the activeCall protocol of Conn.Write / Conn.Close, all schedules
+     4. lock_order_no_deadlock / gmsm_access_table_no_deadlock / source_lock_order_acyclic
+                                    threads that take their locks in one order never reach a state in which every
+                                    unfinished thread is blocked; the rows of the table and the lock acquisitions found
+                                    in the current source are ordered by one rank function
+   What the two serialisability theorems do NOT say:
+     - they speak about COMPLETE schedules (all threads finished); that such a schedule can always be completed is 4,
+       and only for blocking on mutexes: a sync.Once is an atomic step of the machine, blocking on the network, on
+       sync.Cond (Conn.handshakeCond is not used by the pinned code paths) and on channels is outside;
+     - 1' is serialisability at REGION level (the accesses between two synchronisation operations run as if alone),
+       not at CALL level: a whole exported call such as Conn.Read, which takes and releases several locks, is not
+       claimed to be atomic - two calls may interleave between their critical sections (and whole-call atomicity is
+       false in general for calls that release and re-take a lock: Example region_level_not_call_level).
+       Call-level statements are made only where the property needs them: config_init_vs_rotate_rotation_kept
+       and conn_close_write_interlock.
    The Go scheduler, the Go memory model and the correspondence table <-> code are NOT proved; the table is
    validated per run by the race detector (checks/c20.py).  Property theorems only; proofs in Conc/*.v. *)
 From Coq Require Import List Arith Bool Lia.
 From GmsmVerif Require Import Conc.AccessModel Conc.ConcLists Conc.ConcProofs Conc.NestModel Conc.NestProofs Conc.AccessTable Conc.TableProofs
-  Conc.ActiveCall Conc.ActiveProofs Conc.SourceTie Conc.SourceTieProofs Gen.ConcWriteSets.
+  Conc.ActiveCall Conc.ActiveProofs Conc.SourceTie Conc.SourceTieProofs Conc.LockOrder Conc.LockOrderProofs Conc.TableOrderProofs Gen.ConcWriteSets.
 Import ListNotations.
 
 (* ---------------------------------------------------------------------------------------------------------- *)
@@ -103,7 +117,9 @@ Proof. vm_compute. auto. Qed.
    lock table, Once flags) of ANY complete schedule is the final state of a schedule of UNITS, a unit being a whole
    region - a maximal run of accesses of one thread between two synchronisation operations, e.g. the body of a
    critical section - or a single lock / unlock / Once step.  So no access of another thread ever falls inside a
-   critical section in a way that could be told apart from running the section alone. *)
+   critical section in a way that could be told apart from running the section alone.
+   (Region level, not call level: the units of one exported call may still be separated by units of other threads;
+   and the statement is about complete schedules - see 4 for the absence of deadlock.) *)
 Theorem race_free_region_serializable :
   forall (wf : nat -> list nat -> nat) (obody : nat -> list (nat * nat))
          (prog : list (list nitem)) (nloc nmut nonce : nat) (sched : list nat) (fin : pst2),
@@ -115,6 +131,18 @@ Proof.
   exact (region_main wf obody (length sched) _ sched fin (le_n _) (init2_inv obody prog nl nm no Hrf) Hrun Hfin).
 Qed.
 Print Assumptions race_free_region_serializable.
+
+(* The limit of the statement, as an example: a "call" that reads x in one critical section and writes x+1 in a second
+   one (it releases the mutex in between) is race-free, yet two such calls can interleave between their sections
+   and lose an update - the final state [1] is the result of a schedule of units (regions), but not of running the two
+   calls one after the other (both orders give [2]).  Call-level atomicity is NOT what theorem 1' claims. *)
+Definition split_call : list nitem := locked Excl 0 [rd 0] ++ locked Excl 0 [wr 0].
+Example region_level_not_call_level :
+  race_free2_b no_once 0 [split_call; split_call] = true
+  /\ option_map (fun f => store2 (pmem2 f)) (run2 incr no_once (init2 [split_call; split_call] 1 1 0) [0;0;0; 1;1;1; 0;0;0; 1;1;1]) = Some [1]
+  /\ option_map (fun f => store2 (pmem2 f)) (run2 incr no_once (init2 [split_call; split_call] 1 1 0) [0;0;0;0;0;0; 1;1;1;1;1;1]) = Some [2]
+  /\ option_map (fun f => store2 (pmem2 f)) (run2 incr no_once (init2 [split_call; split_call] 1 1 0) [1;1;1;1;1;1; 0;0;0;0;0;0]) = Some [2].
+Proof. vm_compute. auto. Qed.
 
 (* non-vacuity: a writer that holds mutex 0 exclusively (x++) and, nested inside it, mutex 1 (y++), against a reader
    that reads x twice under RLock of mutex 0 and then does y++ under mutex 1.  All 2^16 candidate schedules of the
@@ -316,3 +344,58 @@ Example interlock_notify_example :
   let s := arun (ainit 1 1) [inl 0; inl 0; inl 0; inr 0; inr 0; inr 0] in
   ws s = [WDone] /\ cs s = [CDoneNotify] /\ ac s = 1.
 Proof. vm_compute. auto. Qed.
+
+(* ---------------------------------------------------------------------------------------------------------- *)
+(* 4.  Absence of deadlock on mutexes (Conc/LockOrder.v).  [ordered rank nmut nonce bound [] c]: the thread takes a
+   lock only while every lock it holds has a strictly smaller rank (so never one it holds: Go's mutexes are not
+   re-entrant and an RLock cannot be upgraded), releases only what it holds and ends holding nothing.  Then from the
+   initial state EVERY schedule leads to a state that is finished or in which some thread can perform its next item:
+   no reachable state has all unfinished threads blocked.  (Proof: lock table and held lists agree in every reachable
+   state; a blocked thread waits for a lock whose holder has code left, and if that holder is blocked too it waits
+   for a lock of larger rank - induction on bound - rank.)  Blocking other than on mutexes is not in the machine. *)
+Theorem lock_order_no_deadlock :
+  forall (wf : nat -> list nat -> nat) (obody : nat -> list (nat * nat)) (rank : nat -> nat) (nmut nonce bound : nat)
+         (prog : list (list nitem)) (nloc : nat) (sched : list nat) (st : pst2),
+    (forall c, In c prog -> ordered rank nmut nonce bound [] c = true) ->
+    run2 wf obody (init2 prog nloc nmut nonce) sched = Some st ->
+    finished2 st \/ can_step wf obody st.
+Proof. intros. eapply ordered_no_deadlock; eauto. Qed.
+Print Assumptions lock_order_no_deadlock.
+
+(* every row of the access table (claimed or not) is ordered by gm_rank: handshakeMutex < c.in < c.out < Config.mutex,
+   cache mutex < atomics; hence any goroutines running any sequences of rows, under any schedule *)
+Theorem gmsm_access_table_no_deadlock :
+  forall (wf : nat -> list nat -> nat) (threads : list (list op)) (sched : list nat) (st : pst2),
+    run2 wf gm_obody (init2 (program_of threads) n_loc n_mut n_once) sched = Some st ->
+    finished2 st \/ can_step wf gm_obody st.
+Proof. exact table_no_deadlock. Qed.
+Print Assumptions gmsm_access_table_no_deadlock.
+
+(* tie to the CURRENT source: gen_lock_order (Gen/ConcWriteSets.v, regenerated every run) lists (held, taken) for every
+   Lock / RLock / Once.Do reachable from an exported entry point while another mutex or Once is held, by the function or
+   by its callers; a sync.Once counts as a lock there.  Every pair goes strictly upwards in src_rank - which on the
+   mutexes of the table IS gm_rank - so the held-before relation of the source is acyclic and no lock is taken while
+   one of the same name is held; and the nestings of real mutexes in the rows are exactly those found in the source. *)
+Theorem source_lock_order_acyclic :
+  (forall a b, In (a, b) gen_lock_order -> exists ra rb, src_rank a = Some ra /\ src_rank b = Some rb /\ ra < rb)
+  /\ lock_order_tied = true.
+Proof. split; [exact src_lock_order_spec | exact lock_order_tied_true]. Qed.
+Print Assumptions source_lock_order_acyclic.
+
+(* non-vacuity: two threads taking two mutexes in opposite orders are not ordered by any of the two possible ranks,
+   and the schedule [0; 1] reaches a state that is not finished and in which neither thread can step (a deadlock of
+   the machine); the same threads with one order are accepted.  The source list is not empty; taking c.in while
+   holding c.out, Config.mutex twice, or handshakeMutex under Config.mutex would be refused. *)
+Definition ab_ba : list (list nitem) := [locked Excl 0 (locked Excl 1 [wr 0]); locked Excl 1 (locked Excl 0 [wr 0])].
+Definition ab_ab : list (list nitem) := [locked Excl 0 (locked Excl 1 [wr 0]); locked Excl 0 (locked Excl 1 [wr 0])].
+Example lock_order_examples :
+  forallb (ordered (fun m => m) 2 0 2 []) ab_ba = false
+  /\ forallb (ordered (fun m => 1 - m) 2 0 2 []) ab_ba = false
+  /\ forallb (ordered (fun m => m) 2 0 2 []) ab_ab = true
+  /\ (match run2 incr no_once (init2 ab_ba 1 2 0) [0; 1] with
+      | Some st => negb (finished2_b st) && match step2 incr no_once st 0, step2 incr no_once st 1 with None, None => true | _, _ => false end
+      | None => false end) = true
+  /\ (10 <=? length gen_lock_order) = true
+  /\ pair_ranked ex_pair_in_out = true /\ pair_ranked ex_pair_out_in = false
+  /\ pair_ranked ex_pair_cfg_cfg = false /\ pair_ranked ex_pair_cfg_hs = false.
+Proof. vm_compute. auto 12. Qed.
